@@ -130,6 +130,27 @@ QUERY_STREAM = {
     ],
 }
 
+CNF_STREAM = {
+    "name": "cnf",
+    "quick": {"cases": 1200, "args": ["--maxvars=6", "--maxops=14"]},
+    "thorough": {"cases": 40000, "args": ["--maxvars=8", "--maxops=30"]},
+    "shrink_levels": [
+        {"cases": 2000, "args": ["--maxvars=1", "--maxops=4"]},
+        {"cases": 2000, "args": ["--maxvars=2", "--maxops=6"]},
+        {"cases": 2000, "args": ["--maxvars=3", "--maxops=8"]},
+    ],
+}
+
+SER_STREAM = {
+    "name": "ser",
+    "quick": {"cases": 1200, "args": ["--maxvars=6", "--maxops=20"]},
+    "thorough": {"cases": 40000, "args": ["--maxvars=8", "--maxops=40"]},
+    "shrink_levels": [
+        {"cases": 2000, "args": ["--maxvars=2", "--maxops=6"]},
+        {"cases": 2000, "args": ["--maxvars=3", "--maxops=8"]},
+    ],
+}
+
 BDD_RULE = ("operation programs over RobddBuilder (random/linear/reversed orders, AllIteTable or LruIteTable with hooked "
             "capacity 2^0..2^3, hooked unique-table capacity 4..16 so the table grows repeatedly); a case is non-trivial when "
             "at least one result has a node whose child is a node; distinct = distinct program text")
@@ -336,5 +357,44 @@ PROPS = {
                       "real and expected-utility instances (bb_opt, bb_real_opt, bb_eu_opt).",
         "level_note": "Trusted: Lean kernel; allowed axioms; harness+driver. f64 modelled by Rat.",
         "explanation": "C12.* theorems; opt stream: value and assignment vs exhaustive maximisation and vs the mirrored model (tie-breaking included).",
+    },
+    "C15": {
+        "modules": ["RsddModel.Props.C15"],
+        "streams": [CNF_STREAM],
+        "rule": "raw clause lists (empty list, empty clause, duplicate/complementary literals, unused indices) with a random partial model, a literal to "
+                "condition on and integer weights; hasher histories of push / decide / pop with the partial model kept in step (a decision never "
+                "contradicts the current model: the documented use), all pairs of states of one history compared; non-trivial = more than one clause "
+                "and variable / more than two comparable states",
+        "trusted": ["modelled not verified: bit_set::BitSet (sorted duplicate-free list), HashSet iteration order of the hasher (proved irrelevant), primal::Primes (trial division, proved prime)"],
+        "assumptions": ["'coincide' in the hasher clause is read positionally: the same clause positions are unsatisfied and restrict to the same literal occurrences "
+                        "(two different clauses with syntactically equal restrictions hash differently: a cache miss, never a wrong hit)",
+                        "only-if direction needs the product of all literal primes below 2^128 (stated in the property)"],
+        "level_text": "Kernel-checked: Cnf::new keeps the function and the clause/literal sets (new_sem), num_vars, eval, is_sat_partial, condition and the "
+                      "brute-force count agree with their set-theoretic definitions including the empty formula and empty clauses (eval_spec, "
+                      "isSatPartial_spec, condition_sem, assignmentIter_enumerates, wmc_spec, wmcOrig_wrong), the hasher's value is the product of "
+                      "the primes of the unassigned literal occurrences of unsatisfied non-unit clauses over any push/decide/pop history "
+                      "(hash_formula), equal residuals give equal hashes (hasher_eq_if) and, below 2^128, only then (hasher_eq_only_if, by unique "
+                      "factorisation proved in core Lean); literal packing, partial-model and variable-set algebra.",
+        "level_note": "Trusted: Lean kernel; allowed axioms; harness+driver. Positional reading of the residual; BitSet/HashSet/primal modelled.",
+        "explanation": "C15.* theorems; cnf stream: implementation vs set-theoretic definitions on the raw clauses, vs the mirrored model; hasher states compared pairwise.",
+    },
+    "C17": {
+        "modules": ["RsddModel.Props.C17"],
+        "streams": [SER_STREAM],
+        "rule": "generated DIMACS texts (comment lines, header, clauses spanning lines, empty clauses, duplicate literals) through Cnf::from_dimacs, "
+                "to_dimacs and back, and through LogicalExpr::from_dimacs; generated s-expressions over up to 6 named variables (names chosen so that "
+                "lexicographic order differs from numeric order) through serde_sexpr and from_sexpr; serde_json output of the BDD, SDD and vtree "
+                "serialisers for the largest diagram of a builder pool, parsed with Lean.Json; non-trivial = more than one clause / variable / node",
+        "trusted": ["modelled not verified: the crates dimacs, serde_sexpr and serde_json (only sampled by the stream); texts are restricted to what the dimacs "
+                    "crate accepts (it rejects headers announcing zero variables or zero clauses)",
+                    "SDD serialiser: the JSON is checked against the diagram's truth table (not field-for-field against the model, which needs the raw in-memory node)"],
+        "assumptions": ["s-expressions without the constants True/False (todo!() downstream, excluded by the property)"],
+        "level_text": "Kernel-checked: re-parsing header + to_dimacs(c) returns c for every clause list (dimacs_roundtrip_text, dimacs_roundtrip, "
+                      "dimacs_roundtrip_sets), the DIMACS glue keeps the models under label = number - 1 (fromDimacs_sem) and LogicalExpr::from_dimacs "
+                      "under label = number (exprFromDimacs_sem), from_sexpr keeps the models under the lexicographic numbering (fromSexpr_sem, "
+                      "variableMapping_lex), and the BDD/SDD node tables with complement flags, read naively, denote the in-memory diagram "
+                      "(serBdd_sem, serSdd_sem); the vtree JSON is isomorphic to the tree (serVtree_iso).",
+        "level_note": "Trusted: Lean kernel; allowed axioms; harness+driver; the three external crates are sampled, not modelled.",
+        "explanation": "C17.* theorems; ser stream: real parsers/serialisers vs specification-level readers of the same text / JSON.",
     },
 }
